@@ -277,12 +277,19 @@ def expandBlock (m : Model) (k : Kind) (body : List BItem) : List BItem :=
 
 /-! ### nested transitions -/
 
+/-- the dictionary of one transition, listed in the order the engine consults it (the keys are
+    distinct, so the order carries no meaning) -/
 def transTags (r : Table.Row) : List (Str × Str) :=
-  (match r.action with | some a => caseTags "ACTIONNAME" "actionName" "ACTION_NAME" a | none => []) ++
-  (match r.guard with | some g => caseTags "GUARDNAME" "guardName" "GUARD_NAME" g | none => []) ++
+  (match r.action with
+   | some a => [(Engine.T "ACTIONNAME", a), (Engine.T "actionName", camelSmall a), (Engine.T "ACTION_NAME", snakeCase a)]
+   | none => []) ++
+  (match r.guard with
+   | some g => [(Engine.T "GUARDNAME", g), (Engine.T "GUARD_NAME", snakeCase g), (Engine.T "guardName", camelSmall g)]
+   | none => []) ++
   (match r.next with
-   | some n => caseTags "STATENAMEIFNEXTSTATE" "stateNameIfNextState" "STATE_NAME_IF_NEXT_STATE" r.src ++
-               caseTags "NEXTSTATENAME" "nextStateName" "NEXT_STATE_NAME" n
+   | some n => [(Engine.T "STATENAMEIFNEXTSTATE", r.src), (Engine.T "stateNameIfNextState", camelSmall r.src),
+                (Engine.T "STATE_NAME_IF_NEXT_STATE", snakeCase r.src),
+                (Engine.T "NEXTSTATENAME", n), (Engine.T "nextStateName", camelSmall n), (Engine.T "NEXT_STATE_NAME", snakeCase n)]
    | none => [])
 
 def transTagNames : List Str :=
